@@ -51,6 +51,7 @@ type C06Cmd struct {
 	Secs   int
 	Val    string
 	Failed bool // answered with an injected error instead of being executed
+	Reset  bool // (with Failed) the connection was closed without a reply instead: ONE attempt of the client, which re-sends a command up to 3 times
 }
 
 // C06Srv is a miniredis instance with fault injection and a command log.
@@ -59,10 +60,11 @@ type C06Srv struct {
 
 	mu       sync.Mutex
 	prefixes []string // only commands on keys with one of these prefixes belong to the running case
-	mode     string   // "" | down | get | slowget | set | del
+	mode     string   // "" | down | get | slowget | set | del, or one of these prefixed with "rst" (connection closed without a reply) or "rst1" (the same, for one command only)
 	filt     string   // "" or first byte of the keys the fault applies to
 	log      []C06Cmd
 	injected int
+	resets   int // attempts answered by closing the connection
 }
 
 // C06Srvs are started once per process, outside any bubble.
@@ -105,9 +107,9 @@ func init() {
 		if !redis.New(m.Addr()).Ping() {
 			panic("c06: miniredis not reachable")
 		}
-		if i == 0 {
+		{
 			// cluster-type client (slot table loaded, node client and its
-			// reaper created) for the first server, also outside any bubble
+			// reaper created) for every server, also outside any bubble
 			cr := redis.New(m.Addr(), redis.WithCluster())
 			if !cr.Ping() {
 				panic("c06: miniredis not reachable through the cluster client")
@@ -167,12 +169,23 @@ func (s *C06Srv) hook(c *server.Peer, cmd string, args ...string) bool {
 		return false
 	}
 	e.Failed = s.matches(cmd, e.Keys)
-	if e.Failed {
+	if e.Failed && strings.HasPrefix(s.mode, "rst") {
+		// connection-level fault: no reply, the peer's connection is closed
+		e.Reset = true
+		s.resets++
+		if strings.HasPrefix(s.mode, "rst1") {
+			s.mode, s.filt = "", "" // one command only: the client's own re-send goes through
+		}
+	} else if e.Failed {
 		s.injected++
 	}
 	slow := e.Failed && s.mode == "slowget"
 	s.log = append(s.log, e)
 	s.mu.Unlock()
+	if e.Reset {
+		c.Close()
+		return true
+	}
 	if slow {
 		// the failing GET takes a while (real time: this goroutine is outside
 		// the bubble and the client waits in network I/O), so that readers
@@ -205,7 +218,11 @@ func (s *C06Srv) ours(keys []string) bool {
 }
 
 func (s *C06Srv) matches(cmd string, keys []string) bool {
-	switch s.mode {
+	mode := strings.TrimPrefix(strings.TrimPrefix(s.mode, "rst1"), "rst")
+	if mode == "" && s.mode != "" {
+		mode = "down"
+	}
+	switch mode {
 	case "down":
 	case "get", "slowget":
 		if cmd != "GET" {
@@ -233,10 +250,14 @@ func (s *C06Srv) matches(cmd string, keys []string) bool {
 	return false
 }
 
-// WouldFail tells whether a command would be answered with an injected error now.
+// WouldFail tells whether a command (the client's call as a whole) would fail
+// now. A single reset (rst1...) does not fail the call: the client re-sends.
 func (s *C06Srv) WouldFail(cmd string, keys []string) bool {
 	s.mu.Lock()
 	defer s.mu.Unlock()
+	if strings.HasPrefix(s.mode, "rst1") {
+		return false
+	}
 	return s.matches(cmd, keys)
 }
 
@@ -263,11 +284,13 @@ func (s *C06Srv) Take() []C06Cmd {
 	return l
 }
 
-// Injected is the number of commands answered with an injected error since Reset.
+// Injected is (an upper bound of) the number of client calls that failed
+// because of an injected fault since Reset: error replies, plus one per
+// started group of four reset attempts (a call is given up after 4 attempts).
 func (s *C06Srv) Injected() int {
 	s.mu.Lock()
 	defer s.mu.Unlock()
-	return s.injected
+	return s.injected + (s.resets+3)/4
 }
 
 // Reset empties the server and clears faults, log and counters; from now on
@@ -275,7 +298,7 @@ func (s *C06Srv) Injected() int {
 func (s *C06Srv) Reset(prefixes ...string) {
 	s.M.FlushAll()
 	s.mu.Lock()
-	s.mode, s.filt, s.log, s.injected, s.prefixes = "", "", nil, 0, prefixes
+	s.mode, s.filt, s.log, s.injected, s.resets, s.prefixes = "", "", nil, 0, 0, prefixes
 	s.mu.Unlock()
 }
 
